@@ -395,6 +395,7 @@ inductive Ev where
   | link (src : SiteId) (arg : CommitArg)                   -- the link from `src` handles its next block
   | snapshot (src : SiteId) (cmds : List Cmd) (arg : CommitArg)  -- … commits one snapshot unit
   | book (src : SiteId) (b : Bookkeeping)                   -- … writes one bookkeeping command
+  | toolRaw (src : SiteId) (isTxn : Bool) (cmds : List Cmd) -- … writes something outside the vocabulary (never, in a good run)
 
 /-- run `cmds` at site `s` as one execution and append what it propagates -/
 def execAt (cfg : WCfg) (w : World) (s : SiteId) (isTxn : Bool) (cmds : List Cmd) (tag : Tag) : World :=
@@ -461,6 +462,8 @@ def stepWorld (cfg : WCfg) (w : World) : Ev → World
       execAt cfg w src.other true txn .snapshot
   | .book src bk =>
     execAt cfg w src.other false [bk.toCmd] .book
+  | .toolRaw src isTxn cmds =>
+    execAt cfg w src.other isTxn cmds .book
 
 def runWorld (cfg : WCfg) : World → List Ev → World
   | w, [] => w
